@@ -1,11 +1,11 @@
 import CollectionsC.Properties.C03
-import CollectionsC.Proofs.TreeTableMem
 /-! # C08 (tree table / tree set part): a failed allocation is atomic
 
-Allocating calls: the constructors (2 resp. 3 requests) and `add` of an absent key (1 request).
-`Mem.nrefused` counts the refusals that fired in the current call.  Quantifiers: every state
-satisfying the invariant, every call, **every** allocator schedule.  Iterator cursors are separate
-values that no table call takes as an argument, so they are trivially unchanged. -/
+Allocating calls: the constructors (2 resp. 3 requests) and `add` of an absent key (1 request), all on
+the container's own allocator triple.  `Mem.nrefused` counts the refusals that fired in the current
+call (only the configured allocator can be made to refuse).  Quantifiers: every state satisfying the
+invariant, every call, **every** allocator schedule.  Iterator cursors are separate values that no
+table call takes as an argument, so they are trivially unchanged. -/
 namespace CC.Properties.C08Tree
 open CC CC.Spec CC.Spec.OrdMap
 variable {cmp : Nat → Nat → Int}
@@ -26,16 +26,23 @@ theorem not_refused (t : TreeTable) (op : Op) (m : Mem) (h : (t.step cmp op m).1
 
 /-- `add` fails exactly when the key is new and the allocator refuses the node -/
 theorem add_refused_iff (ho : TotalOrder cmp) (t : TreeTable) (h : t.Inv cmp) (k v : Nat) (m : Mem) :
-    (t.add cmp k v m).1 = .errAlloc ↔ (contains t.abs k = false ∧ m.alloc.1 = false) := by
+    (t.add cmp k v m).1 = .errAlloc ↔ (contains t.abs k = false ∧ (m.allocT t.triple).1 = false) := by
   have a := (TreeTable.add_spec ho h k v m).1
   rw [a]
-  cases contains t.abs k <;> cases m.alloc.1 <;> simp
+  cases contains t.abs k <;> cases (m.allocT t.triple).1 <;> simp
+
+/-- a table on the C library's triple never reports `CC_ERR_ALLOC` -/
+theorem libc_never_refused (ho : TotalOrder cmp) (t : TreeTable) (h : t.Inv cmp) (k v : Nat) (m : Mem)
+    (ht : t.triple = .libc) : (t.add cmp k v m).1 = .ok := by
+  have a := (TreeTable.add_spec ho h k v m).1
+  rw [a, ht]; simp [Mem.allocT]
 
 /-- **atomic**: after `CC_ERR_ALLOC` the table is physically what it was (tree, colours, size), the
 ledger holds exactly the blocks it held, nothing faulted -/
 theorem atomic (ho : TotalOrder cmp) (t : TreeTable) (h : t.Inv cmp) (op : Op) (m : Mem)
-    (hm : t.size + 2 ≤ m.live) (hf : (t.step cmp op m).1.st = some .errAlloc) :
-    (t.step cmp op m).2.1 = t ∧ (t.step cmp op m).2.2.1.live = m.live ∧
+    (hm : TreeTable.Owns t m) (hf : (t.step cmp op m).1.st = some .errAlloc) :
+    (t.step cmp op m).2.1 = t ∧
+    TreeTable.liveOf (t.step cmp op m).2.2.1 t.triple = TreeTable.liveOf m t.triple ∧
     (t.step cmp op m).2.2.1.fault = m.fault := by
   have s := C03.step_refines ho t h op m hm
   have e := (s.inert .errAlloc hf (by decide)).1
@@ -44,8 +51,9 @@ theorem atomic (ho : TotalOrder cmp) (t : TreeTable) (h : t.Inv cmp) (op : Op) (
   exact ⟨e, by omega, s.nofault⟩
 
 theorem add_atomic (ho : TotalOrder cmp) (t : TreeTable) (h : t.Inv cmp) (k v : Nat) (m : Mem)
-    (hk : contains t.abs k = false) (hr : m.alloc.1 = false) :
-    (t.add cmp k v m).1 = .errAlloc ∧ (t.add cmp k v m).2.1 = t ∧ (t.add cmp k v m).2.2.1.live = m.live ∧
+    (hk : contains t.abs k = false) (hr : (m.allocT t.triple).1 = false) :
+    (t.add cmp k v m).1 = .errAlloc ∧ (t.add cmp k v m).2.1 = t ∧
+    TreeTable.liveOf (t.add cmp k v m).2.2.1 t.triple = TreeTable.liveOf m t.triple ∧
     (t.add cmp k v m).2.2.1.fault = m.fault := C03.add_atomic ho t h k v m hk hr
 
 /-- the constructor: `CC_ERR_ALLOC` iff one of its two requests is refused; then no object, and the
@@ -53,27 +61,31 @@ block obtained before the refusal has been released -/
 theorem new_refused_iff (m : Mem) :
     (TreeTable.new m).1 = .errAlloc ↔ (m.alloc.1 = false ∨ m.alloc.2.alloc.1 = false) :=
   TreeTable.new_refused_iff m
-theorem new_atomic (m : Mem) (h : (TreeTable.new m).1 = .errAlloc) :
-    (TreeTable.new m).2.1 = none ∧ (TreeTable.new m).2.2.live = m.live ∧ (TreeTable.new m).2.2.fault = m.fault :=
-  (C03.new_inv (cmp := fun _ _ => 0) m).2.2 h
+theorem new_atomic (tr : Triple) (m : Mem) (h : (TreeTable.newT tr m).1 = .errAlloc) :
+    (TreeTable.newT tr m).2.1 = none ∧ TreeTable.liveOf (TreeTable.newT tr m).2.2 tr = TreeTable.liveOf m tr ∧
+    (TreeTable.newT tr m).2.2.fault = m.fault :=
+  (C03.new_inv (cmp := fun _ _ => 0) tr m).2.2 h
 /-- an allocator that does not refuse: the constructor succeeds -/
 theorem new_succeeds (m : Mem) (h : m.sched = []) : (TreeTable.new m).1 = .ok := by
   have a1 := Mem.alloc_nil m h
   have a2 := Mem.alloc_nil m.alloc.2 a1.2
-  unfold TreeTable.new; dsimp only
+  unfold TreeTable.new TreeTable.newT; dsimp only
   simp [a1.1, a2.1]
+/-- the default constructor cannot be made to fail by the schedule -/
+theorem new_default_succeeds (m : Mem) : (TreeTable.newT .libc m).1 = .ok := (TreeTable.newT_libc m).2
 
 /-- **continue**: a history with a refused call in the middle ends in the same table (physically) and
-produces the same outputs for the calls after it as the history without that call -/
+produces the same outputs for the calls after it as the history without that call — for every
+schedule of the other calls -/
 theorem continue_ (ho : TotalOrder cmp) (ops₁ ops₂ : List (Op × List Bool)) (op : Op) (sched : List Bool)
-    (t : TreeTable) (h : t.Inv cmp) (m : Mem) (hm : t.size + 2 ≤ m.live)
+    (t : TreeTable) (h : t.Inv cmp) (m : Mem) (hm : TreeTable.Owns t m)
     (hf : ((t.run cmp ops₁ m).2.2.1.step cmp op ((t.run cmp ops₁ m).2.2.2.begin sched)).1.st = some .errAlloc) :
     (t.run cmp (ops₁ ++ (op, sched) :: ops₂) m).2.2.1 = (t.run cmp (ops₁ ++ ops₂) m).2.2.1 ∧
     ∃ o outs₂, (t.run cmp (ops₁ ++ (op, sched) :: ops₂) m).1 = (t.run cmp ops₁ m).1 ++ o :: outs₂ ∧
       o.st = some .errAlloc ∧ (t.run cmp (ops₁ ++ ops₂) m).1 = (t.run cmp ops₁ m).1 ++ outs₂ := by
-  obtain ⟨_, _, c, _, e, _⟩ := C03.history_refines ho ops₁ t h m hm
-  have hm1 : (t.run cmp ops₁ m).2.2.1.size + 2 ≤ ((t.run cmp ops₁ m).2.2.2.begin sched).live := by
-    show _ ≤ (t.run cmp ops₁ m).2.2.2.live; omega
+  obtain ⟨_, _, c, _, _, g, _⟩ := C03.history_refines ho ops₁ t h m hm
+  have hm1 : TreeTable.Owns (t.run cmp ops₁ m).2.2.1 ((t.run cmp ops₁ m).2.2.2.begin sched) := by
+    unfold TreeTable.Owns at g ⊢; rw [TreeTable.liveOf_begin]; exact g
   have a := (atomic ho _ c op _ hm1 hf).1
   rw [TreeTable.run_append, TreeTable.run_append]
   simp only [TreeTable.run]
@@ -101,8 +113,9 @@ theorem set_refused_iff (s : TreeSet) (op : OrdSet.Op) (m : Mem) :
   | some st => cases st <;> simp [OrdSet.mapStat]
 
 theorem set_atomic (ho : TotalOrder cmp) (s : TreeSet) (h : s.Inv cmp) (op : OrdSet.Op) (m : Mem)
-    (hm : s.t.size + 2 ≤ m.live) (hf : (s.step cmp op m).1.st = some .errAlloc) :
-    (s.step cmp op m).2.1 = s ∧ (s.step cmp op m).2.2.1.live = m.live ∧
+    (hm : TreeTable.Owns s.t m) (hf : (s.step cmp op m).1.st = some .errAlloc) :
+    (s.step cmp op m).2.1 = s ∧
+    TreeTable.liveOf (s.step cmp op m).2.2.1 s.triple = TreeTable.liveOf m s.triple ∧
     (s.step cmp op m).2.2.1.fault = m.fault := by
   have hf' : (s.t.step cmp (OrdSet.toMapOp op) m).1.st = some .errAlloc := by
     rw [TreeSet.step_eq_table] at hf
@@ -111,18 +124,32 @@ theorem set_atomic (ho : TotalOrder cmp) (s : TreeSet) (h : s.Inv cmp) (op : Ord
     | none => rw [hs] at hf; simp at hf
     | some st => rw [hs] at hf; cases st <;> simp_all [OrdSet.mapStat]
   have a := atomic ho s.t h.1 (OrdSet.toMapOp op) m hm hf'
+  rw [h.2.2] at a
   rw [TreeSet.step_eq_table]
-  exact ⟨by show TreeSet.mk _ = s; rw [a.1], a.2.1, a.2.2⟩
+  exact ⟨by show ({ s with t := _ } : TreeSet) = s; rw [a.1], a.2.1, a.2.2⟩
 
 /-- the set constructor: three requests; a refusal of the inner table's requests is propagated and the
 set header is released -/
 theorem set_new_refused_iff (m : Mem) :
     (TreeSet.new m).1 = .errAlloc ↔
-      (m.alloc.1 = false ∨ m.alloc.2.alloc.1 = false ∨ m.alloc.2.alloc.2.alloc.1 = false) := by
-  unfold TreeSet.new TreeTable.new; dsimp only
-  cases h1 : m.alloc.1 <;> cases h2 : m.alloc.2.alloc.1 <;> cases h3 : m.alloc.2.alloc.2.alloc.1 <;> simp
-theorem set_new_atomic (m : Mem) (h : (TreeSet.new m).1 = .errAlloc) :
-    (TreeSet.new m).2.1 = none ∧ (TreeSet.new m).2.2.live = m.live ∧ (TreeSet.new m).2.2.fault = m.fault :=
-  (C03.set_new_inv (cmp := fun _ _ => 0) m).2.2 h
+      (m.alloc.1 = false ∨ m.alloc.2.alloc.1 = false ∨ m.alloc.2.alloc.2.alloc.1 = false) :=
+  TreeSet.new_refused_iff m
+theorem set_new_atomic (tr : Triple) (m : Mem) (h : (TreeSet.newT tr m).1 = .errAlloc) :
+    (TreeSet.newT tr m).2.1 = none ∧ TreeTable.liveOf (TreeSet.newT tr m).2.2 tr = TreeTable.liveOf m tr ∧
+    (TreeSet.newT tr m).2.2.fault = m.fault :=
+  (C03.set_new_inv (cmp := fun _ _ => 0) tr m).2.2 h
+
+/-! ## Non-vacuity -/
+open CC.Driver.TreeTableD (cmpOf) in
+/-- a refused `add` on a three-entry table: `CC_ERR_ALLOC`, table physically unchanged, ledger unchanged,
+one refusal recorded; the same call on a replaceable key does not allocate and succeeds -/
+example :
+    let t : TreeTable := TreeTable.mk
+      (Tree.node .black (Tree.node .red .nil 1 10 .nil) 2 20 (Tree.node .red .nil 3 30 .nil)) 3 .conf
+    let m : Mem := { live := 5, sched := [true] }
+    decide (t.Inv (cmpOf 0)) = true ∧ (t.step (cmpOf 0) (.add 4 40) m).1.st = some .errAlloc ∧
+    (t.step (cmpOf 0) (.add 4 40) m).2.1 = t ∧ (t.step (cmpOf 0) (.add 4 40) m).2.2.1.live = 5 ∧
+    (t.step (cmpOf 0) (.add 4 40) m).2.2.1.nrefused = 1 ∧
+    (t.step (cmpOf 0) (.add 3 31) m).1.st = some .ok := by decide
 
 end CC.Properties.C08Tree
